@@ -319,4 +319,16 @@ AliasSeq(b, d) ==
          IN [i \in DOMAIN selA |-> <<"SELECT", Alias(selA[i])>>]
             \o [i \in DOMAIN grpA |-> <<"GROUP BY", Alias(grpA[i])>>]
             \o [i \in DOMAIN ordA |-> <<"ORDER BY", Alias(ordA[i])>>]
+
+\* ORDER BY of a SET OPERATION (first UNION later ... ORDER BY ords): the result's column names are those of the FIRST operand, so a
+\* term is written as an alias only if the first operand's select list defines that alias; an alias only a later operand defines
+\* names no column of the result and the term is written out
+SetopAliasSeq(first, later, ords) ==
+    LET firstA == SelectSeq(first, LAMBDA t : Alias(t) # "")
+        laterA == SelectSeq(later, LAMBDA t : Alias(t) # "")
+        firstAl == {Alias(first[i]) : i \in DOMAIN first} \ {""}
+        ordA == SelectSeq(ords, LAMBDA t : Alias(t) # "" /\ Alias(t) \in firstAl)
+    IN [i \in DOMAIN firstA |-> <<"SELECT", Alias(firstA[i])>>]
+       \o [i \in DOMAIN laterA |-> <<"SELECT", Alias(laterA[i])>>]
+       \o [i \in DOMAIN ordA |-> <<"ORDER BY", Alias(ordA[i])>>]
 =============================================================================
